@@ -126,7 +126,7 @@ fn grid(tier: Tier) -> Vec<C18World> {
         g.push(w);
     }
     for (kind, n, op, stack, prof) in [("boolean_fan", 14_000u64, "union_right", 2u64 << 20, "debug"), ("boolean_fan", 30_000u64, "union", 2u64 << 20, "debug"), ("boolean", 20_000u64, "intersection", 2u64 << 20, "debug"), ("boolean", 30_000, "difference", 2 << 20, "debug"), ("boolean_stairs", 30_000, "union", 2 << 20, "debug"),
-        ("boolean_hcomb", 30_000, "union", 2 << 20, "debug"), ("boolean_overlap", 30_000, "union", 2 << 20, "debug")] {
+        ("boolean_hcomb", 30_000, "union", 2 << 20, "debug"), ("boolean_overlap", 30_000, "union", 2 << 20, "debug"), ("boolean_sieve", 30_000, "intersection", 2 << 20, "debug")] {
         let mut w = base(kind, stack, n, "asc", "drop");
         w.op = op.into();
         w.profile = prof.into();
@@ -139,7 +139,8 @@ fn grid(tier: Tier) -> Vec<C18World> {
         ("boolean_nested", 120_000, "intersection_dot", 2 << 20), ("boolean_nested", 120_000, "difference_dot", 2 << 20),
         ("boolean_nested", 120_000, "xor", 2 << 20),
         ("boolean_hcomb", 150_000, "union", 2 << 20), ("boolean_hcomb", 150_000, "intersection", 2 << 20), ("boolean_hcomb", 250_000, "xor", 8 << 20),
-        ("boolean_overlap", 150_000, "union", 2 << 20), ("boolean_overlap", 150_000, "xor", 2 << 20), ("boolean_overlap", 250_000, "difference", 8 << 20)] {
+        ("boolean_overlap", 150_000, "union", 2 << 20), ("boolean_overlap", 150_000, "xor", 2 << 20), ("boolean_overlap", 250_000, "difference", 8 << 20),
+        ("boolean_sieve", 100_000, "intersection", 2 << 20), ("boolean_sieve", 100_000, "union", 2 << 20), ("boolean_sieve", 200_000, "xor", 8 << 20), ("boolean_sieve", 100_000, "difference", 2 << 20)] {
         let mut w = base(kind, stack, n, "asc", "drop");
         w.op = op.into();
         g.push(w);
@@ -524,6 +525,27 @@ fn grid_scenario(w: &C18World) {
     marker(&format!("returned polygons={}", r.0.len()));
 }
 
+/// Sieve: one polygon with `n` square holes on a grid (a single polygon with 10^5 interior rings, every hole a
+/// contour of depth 1 with the same parent), combined with a box that covers the left half of it and cuts through a
+/// column of holes.
+fn sieve_scenario(w: &C18World) {
+    let n = w.n.max(1);
+    let side = (n as f64).sqrt().ceil() as u64;
+    let ext = 3.0 * side as f64 + 1.0;
+    let holes = (0..n).map(|k| square(3.0 * (k % side) as f64 + 1.5, 3.0 * (k / side) as f64 + 1.5, 1.0)).collect::<Vec<_>>();
+    let a = MultiPolygon(vec![Polygon::new(LineString(vec![Coord { x: -1.0, y: -1.0 }, Coord { x: ext, y: -1.0 }, Coord { x: ext, y: ext }, Coord { x: -1.0, y: ext }, Coord { x: -1.0, y: -1.0 }]), holes)]);
+    let half = 3.0 * (side / 2) as f64 + 1.5;
+    let b = MultiPolygon(vec![Polygon::new(LineString(vec![Coord { x: -2.0, y: -2.0 }, Coord { x: half, y: -2.0 }, Coord { x: half, y: ext + 1.0 }, Coord { x: -2.0, y: ext + 1.0 }, Coord { x: -2.0, y: -2.0 }]), vec![])]);
+    marker(&format!("boolean sieve {} holes={} edges={}", w.op, n, 4 * n + 8));
+    let r = match w.op.as_str() {
+        "intersection" => a.intersection(&b),
+        "difference" => a.difference(&b),
+        "xor" => a.xor(&b),
+        _ => a.union(&b),
+    };
+    marker(&format!("returned polygons={} holes={}", r.0.len(), r.0.iter().map(|p| p.interiors().len()).sum::<usize>()));
+}
+
 /// Bow tie: `n` thin blades on the left and three on the right, all meeting in one vertex and nowhere else
 /// (parts touching in a point are valid). Tens of thousands of result edges share that vertex.
 fn fan_scenario(w: &C18World) {
@@ -646,6 +668,7 @@ pub fn child_main(arg: &str) -> i32 {
             "boolean_fan" => fan_scenario(&w),
             "boolean_row" => row_scenario(&w),
             "boolean_hcomb" => hcomb_scenario(&w),
+            "boolean_sieve" => sieve_scenario(&w),
             "boolean_overlap" => overlap_scenario(&w),
             _ => boolean_scenario(&w),
         }
@@ -678,7 +701,7 @@ impl World for C18World {
         }
         let mut r = Rng::stream(seed, "workload");
         let big = if tier == Tier::Thorough { 3_000_000 } else { 1_500_000 };
-        let kind = *r.pick(&["tree", "set", "tree", "set", "tree", "set", "tree", "set", "boolean", "boolean_stairs", "boolean_nested", "boolean_grid", "boolean_fan", "boolean_row", "boolean_hcomb", "boolean_overlap"]);
+        let kind = *r.pick(&["tree", "set", "tree", "set", "tree", "set", "tree", "set", "boolean", "boolean_stairs", "boolean_nested", "boolean_grid", "boolean_fan", "boolean_row", "boolean_hcomb", "boolean_overlap", "boolean_sieve"]);
         let profile = if r.chance(1, 3) { "debug" } else { "release" };
         // sizes log-uniform over 10^3 .. big (thresholds can sit anywhere), smaller caps for unoptimised children
         let logu = |r: &mut Rng, lo: f64, hi: f64| (10f64).powf(lo + (hi - lo) * (r.below(1 << 20) as f64 / (1u64 << 20) as f64)) as u64;
@@ -700,7 +723,7 @@ impl World for C18World {
                 "boolean_nested" => (*r.pick(&["union", "xor", "intersection", "difference", "intersection_dot", "difference_dot"])).into(),
                 "boolean_grid" => (*r.pick(&["union", "xor", "intersection", "difference"])).into(),
                 "boolean_fan" | "boolean_row" => (*r.pick(&["union", "xor", "difference"])).into(),
-                "boolean_hcomb" | "boolean_overlap" => (*r.pick(&["union", "xor", "difference", "intersection"])).into(),
+                "boolean_hcomb" | "boolean_overlap" | "boolean_sieve" => (*r.pick(&["union", "xor", "difference", "intersection"])).into(),
                 _ => (*r.pick(&["intersection", "difference"])).into(),
             },
             first: (*r.pick(&FIRSTS)).into(),
